@@ -18,7 +18,8 @@ ANCHORS = [("pipefunc/_pipeline/_base.py",
              "_filter_funcs", "_traverse_graph", "_PipelineAsFunc"]),
            ("pipefunc/_pipefunc.py", ["PipeFunc.__call__", "PipeFunc.defaults", "PipeFunc.parameters",
                                       "PipeFunc.output_picker", "_default_output_picker"])]
-RULE = ("random acyclic pipelines of 1..6 structural functions (nullary, tuple-output, shared parameters, signature "
+RULE = ("random acyclic pipelines of 1..6 structural functions (nullary, tuple-output, functions and tuple members that "
+        "return None, diamonds over a None value, shared parameters, signature "
         "and explicit defaults, bound values also for names produced by other functions, parameter renames) x every "
         "listing order (<=4 functions, else 4) x every output x every element of arg_combinations(output) + random "
         "cuts with surplus / missing keywords x entry point (pipeline(...), run(full_output=..), func(o)(..), "
@@ -80,6 +81,8 @@ def run_impl(c):
                 _res(lambda: list(pl.root_args(o)))]
     if k == "rootcall":
         r = _res(lambda: pl.func(o).call_with_root_args(*c["vals"]))
+        if isinstance(r, Ok):
+            r = Ok(canon(r.v))
         return [r, log.read()]
     kw = dict(c["kw"])
     full, entry = c["full"], c["entry"]
@@ -90,8 +93,8 @@ def run_impl(c):
         r = _res(lambda: pl.run(o, full_output=full, kwargs=kw))
     else:
         r = _res(lambda: pl.func(o).call_full_output(**kw) if full else pl.func(o)(**kw))
-    if full and isinstance(r, Ok):
-        r = Ok(_dict_obs(r.v))
+    if isinstance(r, Ok):
+        r = Ok(_dict_obs(r.v)) if full else Ok(canon(r.v))     # a value may be None (canonical string "None")
     return [r, log.read()]
 
 
@@ -180,15 +183,19 @@ def calls_for(rng, pd, o, budget):
     for tag, names in kws:
         names = list(dict.fromkeys(names))
         rng.shuffle(names)
-        out.append((tag, [[n, pipegen.value_for(rng, n)] for n in names]))
+        out.append((tag, [[n, pipegen.value_for(rng, n, allow_none=True)] for n in names]))
     return out
 
 
 def generate(rng, tier, mult):
     n_pipes = (40 if tier == "quick" else 400) * mult
     cases = []
-    for _ in range(n_pipes):
-        base = pipegen.gen_pipeline(rng)
+    n_diamonds = (8 if tier == "quick" else 80) * mult
+    for k in range(n_pipes + n_diamonds):
+        if k < n_diamonds:      # a value that is None with >= 2 consumers (memoisation must not depend on the value)
+            base = pipegen.gen_none_diamond(rng)
+        else:
+            base = pipegen.gen_pipeline(rng, none_prob=rng.choice([0.0, 0.0, 0.2, 0.4]))
         orders = pipegen.listing_orders(rng, base)
         if tier == "quick" and len(orders) > 4:
             orders = [orders[0]] + rng.sample(orders[1:], 3)
